@@ -360,3 +360,47 @@ func EachIndexGood(items []item) []string {
 	}
 	return out
 }
+
+// ---- one new helper, two uses: each use sees its own argument --------------------------------
+
+type two struct{ A, B string }
+
+func inlUpper(s string) string { return strings.ToUpper(s) }
+
+func CtxTwoUses(t two) (string, string) {
+	a := inlUpper(t.A)
+	b := inlUpper(t.B)
+	return a, b
+}
+
+// ---- `if !c { act }; continue` is the skip `if c { continue }` --------------------------------
+
+func EachElseSkip(items []item) []string {
+	var out []string
+	for _, it := range items {
+		if !it.Hidden {
+			out = append(out, it.Name)
+		}
+		continue
+	}
+	return out
+}
+
+// ---- length facts: the default arm of `switch len(x)`, and same-length copies ---------------
+
+func LenSwitchGood(xs []string) string {
+	switch len(xs) {
+	case 0:
+		return ""
+	case 1:
+		return xs[0]
+	default:
+		ys := slices.Clone(xs)
+		return ys[1]
+	}
+}
+
+func LenSwitchBad(xs []string) string {
+	ys := slices.Clone(xs)
+	return ys[1]
+}
